@@ -25,6 +25,27 @@ var flagCombos = []sut.Flags{
 	{IgnoreMissingParams: true, IgnoreMissingServices: true},
 }
 
+func hasLabel(ls []string, l string) bool {
+	for _, x := range ls {
+		if x == l {
+			return true
+		}
+	}
+	return false
+}
+
+// c16Many: n references to undefined services and m to undefined parameters on one service (n + m diagnostics).
+func c16Many(n, m int) cfg.Config {
+	s := cfg.Service{Name: "s", Ctor: sp("fx/lib.NewObj")}
+	for i := 0; i < n; i++ {
+		s.Args = append(s.Args, cfg.Str(fmt.Sprintf("@gone%d", i)))
+	}
+	for i := 0; i < m; i++ {
+		s.Args = append(s.Args, cfg.Str(fmt.Sprintf("%%nope%d%%", i)))
+	}
+	return cfg.Config{Meta: cfg.Meta{Pkg: sp("app")}, Services: []cfg.Service{s}}
+}
+
 func c16Eval(t tb, c cfgCase) {
 	col := ev.Get()
 	a := ref.Analyse(c.C)
@@ -45,6 +66,19 @@ func c16Eval(t tb, c cfgCase) {
 			o.cleanup()
 			violation(t, "model:"+key, fmt.Sprintf("flags [%s]: %s :: %s", f.String(), what, oneLine(spec.Files[0].Content)), cc)
 			return
+		}
+		if hasLabel(c.Labels, "binary") {
+			// the decision the user sees is the exit status of the process
+			ob := runBinary(spec, nil)
+			accepted := a.Stage(f.IgnoreMissingParams, f.IgnoreMissingServices) == "accept"
+			if (ob.Res.Exit == 0) != accepted || ob.Exists != accepted {
+				ob.cleanup()
+				o.cleanup()
+				violation(t, "binary-exit-status", fmt.Sprintf("flags [%s]: the linked binary exits with %d (output written: %v), expected acceptance=%v (%d diagnostics remain)", f.String(), ob.Res.Exit, ob.Exists, accepted, len(ob.Report.Errors)), cc)
+				return
+			}
+			ob.cleanup()
+			col.Label("binary-exit-status-checked")
 		}
 		v := observeVerdict(o)
 		sort.Strings(v.Cycles)
@@ -180,8 +214,16 @@ func TestC16(t *testing.T) {
 			labels = append(labels, "grammar")
 		}
 		for sp := 0; sp < 4; sp++ {
-			c16Eval(t, cfgCase{C: c, Labels: append(append([]string(nil), labels...), fmt.Sprintf("flag-spelling:%d", sp)), Flags: sut.Flags{Spelling: sp}})
+			c16Eval(t, cfgCase{C: c, Labels: append(append([]string(nil), labels...), fmt.Sprintf("flag-spelling:%d", sp), "binary"), Flags: sut.Flags{Spelling: sp}})
 		}
+	}
+	// the number of diagnostics that remain under a flag at the boundaries of an 8-bit exit status
+	for i, nm := range [][2]int{{256, 3}, {3, 256}, {256, 256}, {512, 255}, {255, 1}, {1, 0}} {
+		idx++
+		if !ev.Mine(idx) {
+			continue
+		}
+		c16Eval(t, cfgCase{C: c16Many(nm[0], nm[1]), Labels: []string{fmt.Sprintf("many-diagnostics:%d+%d", nm[0], nm[1]), "binary"}, Flags: sut.Flags{Spelling: i % 4}})
 	}
 	col.Exhaustive("all 32 subsets of {dangling parameter, dangling service, cycle, scope conflict, grammar defect} on a fixed base x the 4 flag combinations x 4 spellings of the switches (bare / explicit =true,=false / repeated with the last occurrence deciding / unset ones as =false in front of -i and -o)")
 
